@@ -90,6 +90,8 @@ class Out:
 # observers whose result depends only on their arguments: the same test at two sites is the same atom
 PURE_OBSERVERS = {'is_empty', 'len', 'is_some', 'is_none', 'is_ok', 'is_err', 'contains', 'contains_key', 'is_hex_digit', 'is_alphabetic',
                   'is_alphanumeric', 'is_digit', 'is_incomplete', 'input_len', 'is_ref', 'is_intermediate', 'eq', 'ne'}
+INT_RANGE = {'u8': (0, 255), 'u16': (0, 65535), 'u32': (0, 2**32 - 1), 'u64': (0, 2**64 - 1), 'usize': (0, 2**64 - 1),
+             'i8': (-128, 127), 'i16': (-32768, 32767), 'i32': (-2**31, 2**31 - 1), 'i64': (-2**63, 2**63 - 1), 'isize': (-2**63, 2**63 - 1)}
 UNIT = ('tuple', ())
 TRUE, FALSE = ('lit', True), ('lit', False)
 
@@ -307,7 +309,14 @@ class Interp:
                         outs.extend(r); done = True
                         break
             if not done:
-                outs.append(Out('val', bin_term(op, a, b), s))
+                r = bin_term(op, a, b)
+                if op in ('Add', 'Sub', 'Mul', 'Shl') and a[0] == 'lit' and b[0] == 'lit' and r[0] == 'lit' and isinstance(r[1], int) and not isinstance(r[1], bool):
+                    rng = INT_RANGE.get(hirq.strip_refs(e.get('ty') or ''))
+                    if rng is not None and not (rng[0] <= r[1] <= rng[1]):
+                        # exact evaluation on literals: the debug-profile overflow check would fire here
+                        outs.append(Out('div', UNIT, s.event(('overflow', op, a, b, e))))
+                        continue
+                outs.append(Out('val', r, s))
         return outs + abn
 
     def ev_Field(self, e, st):
